@@ -816,17 +816,30 @@ def second_session_case(ctx, workdir: str, transport_kind: str, k: int, first: s
                     await asyncio.sleep(0)
                 if first == "body-raises":
                     raise KeyError("application error")
+                if first == "final-save-fails":
+                    # a transient disk fault hits the final save of the first session (round 15): the path is a
+                    # directory for a moment, the file as last written is put back afterwards
+                    gateway.nodes[19] = Node(19, 17, "2.0", sketch_name="found in the first session")
+                    if os.path.isfile(path):
+                        os.replace(path, path + ".aside")
+                    os.mkdir(path)
         except (DisconnectBoom, KeyError) as exc:
             if first not in ("disconnect-fails", "body-raises"):
                 raise
             _ = exc
         except Exception as exc:  # noqa: BLE001
-            if first != "connect-fails":
+            if first not in ("connect-fails", "final-save-fails"):
                 raise
             _ = exc
+        if first == "final-save-fails":
+            if os.path.isdir(path):
+                os.rmdir(path)
+            if os.path.isfile(path + ".aside"):
+                os.replace(path + ".aside", path)
         transport.disconnect_error = None
         transport.connect_error = None
-        gateway.nodes[20] = Node(20, 17, "2.0", sketch_name="between sessions")
+        if first != "final-save-fails":  # there the registry stays exactly the one whose save failed
+            gateway.nodes[20] = Node(20, 17, "2.0", sketch_name="between sessions")
         before = set(asyncio.all_tasks())
         async with gateway:
             await asyncio.sleep(1)
@@ -1955,7 +1968,7 @@ def run(ctx) -> None:
             for i, mode in enumerate(("normal", "body-raises")):
                 if ctx.mine(i + 2):
                     rebound_transport_case(ctx, workdir, mode)
-            for first in ("disconnect-fails", "body-raises", "connect-fails"):
+            for first in ("disconnect-fails", "body-raises", "connect-fails", "final-save-fails"):
                 for k in (0, 3):
                     if ctx.mine():
                         second_session_case(ctx, workdir, "scripted", k, first)
